@@ -212,7 +212,8 @@ def check_fault(design, kind, idx):
     from fam import designs
     accepted = (pyrtl.PyrtlError, pyrtl.PyrtlInternalError)
     results = {}
-    for who in ('sanity_check', 'Simulation', 'FastSimulation', 'CompiledSimulation'):
+    for who in ('sanity_check', 'Simulation', 'FastSimulation', 'CompiledSimulation',
+                'Simulation|foreign', 'FastSimulation|foreign', 'CompiledSimulation|foreign'):
         block = designs.build(design)
         try:
             if not apply_fault(block, kind, idx):
@@ -221,6 +222,15 @@ def check_fault(design, kind, idx):
             # the injection itself went through a checked API call: rejected at once
             results[who] = 'rejected-at-injection'
             continue
+        key = who
+        who = who.split('|')[0]
+        if key.endswith('|foreign'):
+            # the faulted block is handed over through block= while a healthy, unrelated block is
+            # the working block
+            pyrtl.reset_working_block()
+            hi = pyrtl.Input(1, 'healthy_in')
+            ho = pyrtl.Output(1, 'healthy_out')
+            ho <<= hi
         try:
             if who == 'sanity_check':
                 block.sanity_check()
@@ -230,11 +240,11 @@ def check_fault(design, kind, idx):
                                               block.wirevector_subset(pyrtl.Output)), block=block))
                 ins = {w.name: 0 for w in block.wirevector_subset(pyrtl.Input)}
                 sim.step(ins)
-            results[who] = 'ACCEPTED'
+            results[key] = 'ACCEPTED'
         except accepted as e:
-            results[who] = 'rejected'
+            results[key] = 'rejected'
         except Exception as e:
-            results[who] = 'raised %s' % type(e).__name__
+            results[key] = 'raised %s' % type(e).__name__
     # the property: rejected by sanity_check OR by simulator construction, never simulated.
     # every simulator must therefore refuse the block; sanity_check alone may accept (e.g. a
     # combinational loop is found by the block iterator) but must not raise a foreign exception
